@@ -743,23 +743,16 @@ impl<'a> UserModel<'a> {
             } else {
                 return Ok(());
             };
-        let (selected_row, selected_column, range, top_row, left_column) =
+        let (selected_row, selected_column, top_row, left_column) =
             if let Ok(worksheet) = self.model.workbook.worksheet(sheet) {
                 if let Some(view) = worksheet.views.get(&self.model.view_id) {
-                    (
-                        view.row,
-                        view.column,
-                        view.range,
-                        view.top_row,
-                        view.left_column,
-                    )
+                    (view.row, view.column, view.top_row, view.left_column)
                 } else {
                     return Ok(());
                 }
             } else {
                 return Ok(());
             };
-        let [row_start, column_start, _row_end, _column_end] = range;
 
         let mut new_left_column = left_column;
         if target_column >= selected_column {
@@ -795,7 +788,9 @@ impl<'a> UserModel<'a> {
 
         if let Ok(worksheet) = self.model.workbook.worksheet_mut(sheet) {
             if let Some(view) = worksheet.views.get_mut(&self.model.view_id) {
-                view.range = [row_start, column_start, target_row, target_column];
+                // the area is anchored on the selected cell (not on the start of the previous range, which
+                // an earlier keyboard extension may have moved away from it), so the cell stays inside it
+                view.range = [selected_row, selected_column, target_row, target_column];
                 if new_top_row != top_row {
                     view.top_row = new_top_row;
                 }
